@@ -47,8 +47,9 @@ GROUPS: dict[str, list[tuple[str, str]]] = {
     "problem_edit": [("problem.py", f"Problem.{m}") for m in ("_validate_expression", "_validate_constraint",
                                                                "_only_simple_bounds", "_has_equality_constraints")],
     # Problem.variables: memo, shortcut test and general path are translated (py2lean_state.gen_problem_variables)
-    "problem_read": [("problem.py", f"Problem.{m}") for m in ("n_constraints", "summary",
-                                                               "objective", "sense", "constraints")],
+    # objective, sense, constraints, n_constraints are pinned statement by statement (py2lean_state -> problemReadersG,
+    # StateTie.accessors_text)
+    "problem_read": [("problem.py", "Problem.summary")],
     # get_all_variables and the three left-spine `_estimate_tree_depth` are translated (py2lean_spine.py), the loop of
     # _get_variables_iterative by py2lean_varsiter.py
     "get_variables": [],
